@@ -2,7 +2,7 @@
 From Coq Require Import List NArith ZArith Bool Lia ZifyBool ZifyNat ZifyN Arith.
 From Mila Require Import Lib.Bytes Lib.BytesExtra Lib.Machine Model.BinArchive Model.BinStreams Model.BinFormat Model.ASet
   Proofs.AMapLemmas Proofs.BinAccess Proofs.BinAccess2 Proofs.RecsCells Proofs.RecsBytes Proofs.RecsBinBridge
-  Proofs.ASetBits Proofs.ASetWrite Proofs.ASetRead Proofs.RecsDataSize.
+  Proofs.ASetBits Proofs.ASetWrite Proofs.ASetRead Proofs.RecsDataSize Proofs.FindLabel.
 Import ListNotations.
 Local Open Scope N_scope.
 Ltac Zify.zify_post_hook ::= Z.div_mod_to_equations.
@@ -25,13 +25,36 @@ Proof.
   apply (layout_append (ba_new LE)). intros k [].
 Qed.
 
+Lemma sets_labels_nodup_early sets : forall p, NoDup (am_keys (sets_labels p sets)).
+Proof.
+  induction sets as [|s r IH]; intros p; cbn [sets_labels]; [constructor|]. rewrite am_keys_app.
+  destruct (hd None s); cbn [lbl_entry am_keys map fst app]; [|apply IH]. constructor; [|apply IH].
+  intros H. apply sets_labels_keys in H. pose proof (set_space_ge s). lia.
+Qed.
 Lemma wf_sets_nonempty sets : Forall (fun s : oset => length s = 257%nat) sets -> Forall (fun s : oset => s <> []) sets.
 Proof. apply Forall_impl. intros s H E. subst s. discriminate. Qed.
+
+(* the table label is looked up at the LOWEST address carrying it: the table is written at 12, every set behind it, so the lookup
+   finds the table also when sets carry the label AnimClipNameTable, whatever the order of the label map *)
+Lemma file_labels_nodup v : NoDup (am_keys (file_labels v)).
+Proof.
+  unfold file_labels. cbn [am_keys map fst]. constructor; [|apply sets_labels_nodup_early].
+  intros H. apply sets_labels_keys in H. unfold SETS_AT in H. lia.
+Qed.
+Lemma find_table_built v : find_label_address (built v) ACNT = Some 12.
+Proof.
+  apply find_label_address_spec. split.
+  - apply label_hits_in. exists [ACNT]. split; [left; reflexivity | left; reflexivity].
+  - intros y Hy. apply label_hits_in in Hy. destruct Hy as (b & Hin & _). cbn [built a_labels] in Hin. unfold file_labels in Hin.
+    destruct Hin as [Hin|Hin]; [inversion Hin; lia|].
+    assert (Hk : In y (am_keys (sets_labels SETS_AT (as_sets v)))) by (apply in_map_iff; exists (y, b); auto).
+    apply sets_labels_keys in Hk. unfold SETS_AT in Hk. lia.
+Qed.
 
 Theorem from_archive_built v : wf_aset v -> from_archive (built v) = Ok v.
 Proof.
   intros W. apply from_archive_layout; [exact W | reflexivity | apply layout_built | apply size_built | |].
-  - unfold find_label_address, built, file_labels. cbn [a_labels find snd fst existsb]. rewrite bytes_eqb_refl. reflexivity.
+  - apply find_table_built.
   - intros x Hx. unfold built, file_labels. cbn [a_labels am_get]. destruct (N.eqb_spec x 12) as [E|E]; [unfold SETS_AT in Hx; lia | reflexivity].
 Qed.
 
@@ -40,7 +63,7 @@ Qed.
 Theorem from_archive_built_gen v : length (as_table v) = 257%nat -> from_archive (built v) = Ok (norm_aset v).
 Proof.
   intros Ht. apply from_archive_layout_gen; [exact Ht | reflexivity | apply layout_built | apply size_built | |].
-  - unfold find_label_address, built, file_labels. cbn [a_labels find snd fst existsb]. rewrite bytes_eqb_refl. reflexivity.
+  - apply find_table_built.
   - intros x Hx. unfold built, file_labels. cbn [a_labels am_get]. destruct (N.eqb_spec x 12) as [E|E]; [unfold SETS_AT in Hx; lia | reflexivity].
 Qed.
 Theorem round_trip_normalises v :
@@ -141,12 +164,13 @@ Proof. intros X. rewrite group_cells_size, X. lia. Qed.
 Definition opt_ok (o : option bytes) : Prop := forall s, o = Some s -> str_ok s.
 Definition strings_ok (v : aset) : Prop :=
   opt_ok (as_meta v) /\ Forall opt_ok (as_table v) /\ Forall (Forall opt_ok) (as_sets v).
-(* the table label is reserved: a set carrying it makes find_label_address depend on the hash order *)
-Definition no_acnt (v : aset) : Prop := Forall (fun s : oset => hd None s <> Some ACNT) (as_sets v).
+(* (before fix 10408e9 of /repo the table label was reserved: find_label_address returned the first hit in HASH order, and a
+   set carrying the label AnimClipNameTable made the file unreadable in about half of the runs - finding F22.  The repaired
+   code returns the lowest address; no condition on the labels is left.) *)
 (* "sizes fit": the file image (computed without sharing equal strings; 32 header bytes + the 3 spare bytes of C01's bound) *)
 Definition aset_fits (v : aset) : Prop :=
   cells_size (file_cells v) + cells_weight (file_cells v) + labels_weight (file_labels v) + 35 < 2 ^ 32.
-Definition wf_aset_bytes (v : aset) : Prop := wf_aset v /\ strings_ok v /\ no_acnt v /\ aset_fits v.
+Definition wf_aset_bytes (v : aset) : Prop := wf_aset v /\ strings_ok v /\ aset_fits v.
 
 Lemma enc_cell_ok x : cell_ok (CRaw (enc LE 4 x)).
 Proof. cbn [cell_ok]. split; [apply wfb_enc | reflexivity]. Qed.
@@ -208,10 +232,9 @@ Qed.
 
 Theorem built_wf v : wf_aset_bytes v -> ba_wf (built v).
 Proof.
-  intros (W & Hs & _ & Hf). rewrite built_arch_of. apply arch_of_wf.
+  intros (W & Hs & Hf). rewrite built_arch_of. apply arch_of_wf.
   - apply file_cells_ok. exact Hs.
-  - unfold file_labels. cbn [am_keys map fst]. constructor; [|apply sets_labels_nodup].
-    intros H. apply sets_labels_keys in H. unfold SETS_AT in H. lia.
+  - apply file_labels_nodup.
   - intros k b Hin. unfold file_labels in Hin. destruct Hin as [Hin|Hin].
     + inversion Hin; subst. split; [reflexivity|]. split.
       * unfold file_cells. rewrite cells_size_app. change (cells_size (header_cells v)) with 12. lia.
@@ -228,43 +251,19 @@ Proof.
 Qed.
 Theorem built_bound v : wf_aset_bytes v -> image_bound (built v) + 3 < 2 ^ 32.
 Proof.
-  intros (_ & _ & _ & Hf). unfold image_bound. rewrite size_built. cbn [built a_text a_labels].
+  intros (_ & _ & Hf). unfold image_bound. rewrite size_built. cbn [built a_text a_labels].
   rewrite text_weight_cells. unfold aset_fits in Hf. lia.
 Qed.
 
-(* find_label_address does not depend on the map order when only one bucket holds the label *)
-Lemma existsb_eqb_in t b : existsb (bytes_eqb t) b = true <-> In t b.
-Proof.
-  rewrite existsb_exists. split.
-  - intros (x & Hx & E). destruct (bytes_eqb_spec t x); [subst; exact Hx | discriminate].
-  - intros H. exists t. split; [exact H | apply bytes_eqb_refl].
-Qed.
-Lemma find_label_unique (L L' : amap (list bytes)) t k0 b0 :
-  NoDup (am_keys L') -> (forall x, am_get x L' = am_get x L) ->
-  am_get k0 L = Some b0 -> In t b0 ->
-  (forall k b, In (k, b) L -> In t b -> k = k0) ->
-  match find (fun p : N * list bytes => existsb (bytes_eqb t) (snd p)) L' with Some p => Some (fst p) | None => None end = Some k0.
-Proof.
-  intros ND Hg H0 Ht Hu. destruct (find _ L') as [[k b]|] eqn:F.
-  - apply find_some in F. destruct F as [Hin X]. cbn [snd fst] in *. apply existsb_eqb_in in X.
-    pose proof (am_get_nodup_in k b L' ND Hin) as G. rewrite Hg in G. apply am_get_in in G. f_equal. exact (Hu k b G X).
-  - exfalso. rewrite <- Hg in H0. apply am_get_in in H0. pose proof (find_none _ _ F _ H0) as X. cbn [snd] in X.
-    assert (existsb (bytes_eqb t) b0 = true) by (apply existsb_eqb_in; exact Ht). congruence.
-Qed.
-
-(* the reader returns v on every archive observationally equal to the built one *)
+(* the reader returns v on every archive observationally equal to the built one, whatever the order of its label map
+   and whatever labels the sets carry *)
 Theorem from_archive_obs_equal v a' :
-  wf_aset v -> no_acnt v -> obs_equal (built v) a' -> from_archive a' = Ok v.
+  wf_aset v -> obs_equal (built v) a' -> from_archive a' = Ok v.
 Proof.
-  intros W NA OE. rewrite built_arch_of in OE. destruct (layout_obs_equal _ _ _ OE) as (L & S & E).
+  intros W OE. rewrite built_arch_of in OE. destruct (layout_obs_equal _ _ _ OE) as (L & S & E).
   destruct OE as (_ & _ & _ & _ & _ & Hl & ND). cbn [arch_of a_labels] in Hl.
   apply from_archive_layout; try assumption.
-  - unfold find_label_address. apply (find_label_unique (file_labels v) (a_labels a') ACNT 12 [ACNT] ND Hl).
-    + unfold file_labels. cbn [am_get]. reflexivity.
-    + left. reflexivity.
-    + intros k b Hin Ht. unfold file_labels in Hin. destruct Hin as [Hin|Hin]; [inversion Hin; reflexivity|].
-      exfalso. destruct (sets_labels_in _ _ _ _ Hin) as (s & l & Hs & Eh & Eb). subst b. destruct Ht as [Ht|[]]. subst l.
-      unfold no_acnt in NA. rewrite Forall_forall in NA. exact (NA s Hs Eh).
+  - rewrite <- (find_table_built v). apply find_label_address_same_map; [apply file_labels_nodup | exact ND | exact Hl].
   - intros x Hx. rewrite Hl. unfold file_labels. cbn [am_get].
     destruct (N.eqb_spec x 12) as [E12|E12]; [unfold SETS_AT in Hx; lia | reflexivity].
 Qed.
@@ -279,7 +278,7 @@ Theorem round_trip_bytes v :
   exists f, serialize m v = Ok f /\ parse f = Ok v /\ (forall v', parse f = Ok v' -> serialize m v' = Ok f).
 Proof.
   intros W. destruct (bytes_round_trip _ (built_wf v W) (built_bound v W)) as (f & a' & S & P & OE).
-  destruct W as (W & Hs & NA & Hf).
+  destruct W as (W & Hs & Hf).
   assert (B : build v = Ok (built v)) by (destruct W as [Ht Hsets]; apply build_spec; [exact Ht | apply wf_sets_nonempty; exact Hsets]).
   assert (Ser : serialize m v = Ok f) by (unfold serialize; rewrite B; exact S).
   assert (Par : parse f = Ok v) by (unfold parse; rewrite P; cbn [bind]; apply from_archive_obs_equal; assumption).
@@ -321,19 +320,16 @@ Proof.
 Qed.
 Definition opt_eqb (o : option bytes) (t : bytes) : bool := match o with Some s => bytes_eqb s t | None => false end.
 Definition wf_aset_bytesb (v : aset) : bool :=
-  andb (andb (andb (wf_asetb v)
+  andb (andb (wf_asetb v)
     (andb (opt_okb (as_meta v)) (andb (forallb opt_okb (as_table v)) (forallb (forallb opt_okb) (as_sets v)))))
-    (forallb (fun s : oset => negb (opt_eqb (hd None s) ACNT)) (as_sets v)))
     (cells_size (file_cells v) + cells_weight (file_cells v) + labels_weight (file_labels v) + 35 <? 2 ^ 32).
 Lemma wf_aset_bytesb_sound v : wf_aset_bytesb v = true -> wf_aset_bytes v.
 Proof.
-  unfold wf_aset_bytesb. rewrite !andb_true_iff, !forallb_forall. intros [[[H1 (H2 & H3 & H4)] H5] H6].
-  split; [apply wf_asetb_sound; exact H1|]. split; [|split].
+  unfold wf_aset_bytesb. rewrite !andb_true_iff, !forallb_forall. intros [[H1 (H2 & H3 & H4)] H6].
+  split; [apply wf_asetb_sound; exact H1|]. split.
   - split; [apply opt_okb_sound; exact H2|]. split.
     + apply Forall_forall. intros o Ho. apply opt_okb_sound, H3, Ho.
     + apply Forall_forall. intros s Hs. specialize (H4 s Hs). rewrite forallb_forall in H4.
       apply Forall_forall. intros o Ho. apply opt_okb_sound, H4, Ho.
-  - apply Forall_forall. intros s Hs E. specialize (H5 s Hs). rewrite E in H5. cbn [opt_eqb] in H5.
-    rewrite bytes_eqb_refl in H5. discriminate.
   - unfold aset_fits. lia.
 Qed.
